@@ -25,7 +25,7 @@ TIMEOUT = 600
 
 
 def cases(tier, seed):
-    n = 60 if tier == "quick" else 3000
+    n = 90 if tier == "quick" else 3000
     for i in range(n):
         yield {"seed": seed, "idx": i}
 
@@ -152,5 +152,5 @@ def compare_all(out, fail, entries, which, tid, label, batch_mode):
 
 
 def conclude(agg):
-    return core.first(core.need(agg, "records_compared", 1000), core.need(agg, "sub_calls_served_from_store", 200),
+    return core.first(core.need(agg, "records_compared", 300), core.need(agg, "sub_calls_served_from_store", 100),
                       None if len(agg.sets.get("step_kinds", ())) >= 8 else "too few step kinds"), {}
